@@ -787,7 +787,11 @@ struct world
             else unsolicited( r );
             break;
         case 0x05:
-            // Pairing Failed may be sent at any time; pairing is idle afterwards
+            // Pairing Failed may be sent at any time; pairing is idle afterwards. But "DHKey check failed" says that a check value of the central
+            // was verified: there must have been one in this exchange
+            if ( r.pdu.size() == 2 && r.pdu[ 1 ] == 0x0b && !ea_received && st != m_idle )
+                res.violate( "C32", "dhkey-check-failed-without-check", std::string( "dhkey-check-failed-without-check " ) + mstate_name( st ), idx,
+                             "l2cap_output produced Pairing Failed (DHKey Check Failed) in model state %s although the central has not sent a DHKey check in this exchange (%s)", mstate_name( st ), ctx().c_str() );
             to_idle( true );
             break;
         case 0x06:
@@ -1294,7 +1298,12 @@ struct sm_harness : sim::Harness
                 const bool user_first = rng.chance( 50 );
                 const sim::Op user( op_user, { rng.chance( 75 ) ? 1 : 0 } );
                 const sim::Op dhkey( op_dhkey, { rng.chance( 90 ) ? 0 : 1, rng.chance( 95 ) ? 0 : rng.range( -17, 3 ) }, rnd_bytes( rng, 16 ) );
-                if ( cfg.yes_no && user_deferred_mode && user_first && rng.chance( 85 ) ) script.push_back( user );
+                if ( cfg.yes_no && user_deferred_mode && user_first && rng.chance( 85 ) )
+                {
+                    script.push_back( user );
+                    // the link layer asks for output at every connection event: also between the user's answer and the central's DHKey check
+                    if ( rng.chance( 60 ) ) script.push_back( sim::Op( op_poll, {} ) );
+                }
                 script.push_back( dhkey );
                 if ( cfg.yes_no && user_deferred_mode && !user_first && rng.chance( 85 ) ) script.push_back( user );
                 script.push_back( sim::Op( op_poll, {} ) );
